@@ -300,6 +300,26 @@ func rewriteFile(path, rel string, raw []byte, mode string) ([]byte, error) {
 			file.Decls = append(file.Decls, parseDecl(`var _ sync.Locker`))
 		}
 	}
+	// tls.Dialer -> simrt.TLSDialer: the default dialers of kmipclient reach the network through this seam
+	// (a simulation installs simrt.DialHook; without one the shim dials for real)
+	usesTLS, hadDialer := false, false
+	ast.Inspect(file, func(n ast.Node) bool {
+		if se, ok := n.(*ast.SelectorExpr); ok {
+			if id, ok := se.X.(*ast.Ident); ok && id.Name == "tls" {
+				if se.Sel.Name == "Dialer" {
+					id.Name = "simrt"
+					se.Sel.Name = "TLSDialer"
+					hadDialer = true
+				} else {
+					usesTLS = true
+				}
+			}
+		}
+		return true
+	})
+	if hadDialer && !usesTLS {
+		file.Decls = append(file.Decls, parseDecl(`var _ tls.Config`))
+	}
 	for _, d := range file.Decls {
 		if mode == "pool" {
 			break
